@@ -419,6 +419,16 @@ def run_case(case: dict) -> dict:
             _run_crash(sess, rng, case)
         elif kind == "inject":
             _run_inject(sess, rng, case)
+        elif kind == "signal_crash":
+            # run until the stage waits, send the signal, crash its delivery after k commits, restart, recover, drain
+            run_policy(sess, rng, "fifo", max_steps=case.get("max_steps", 200))
+            for n in range(case.get("signals", 1)):
+                sess.do(("S", case["stage"], case.get("signame", 1) + n, case.get("persistent", True)))
+            rows = sess.rows()
+            if rows:
+                sess.do(("X", rows[0]["id"], case["k"]))
+                sess.do(("R",))
+            run_policy(sess, rng, case.get("policy", "fifo"), max_steps=case.get("max_steps", 200), submit=False)
         else:
             raise ValueError(kind)
         env = sess.env
@@ -624,6 +634,14 @@ def plan(pid: str, tier: str, rng: random.Random) -> list[dict]:
                     add(kind="inject", what="pause", at=at, unpause_at=at + 6, spec=spec, name=n, policy="random",
                         cancel_with_unpause=True)
     if pid in ("C18",):
+        sus2 = {"suspend": (fam["suspend"], 0), "suspend_twice": ({"stages": [S("A", tasks=[["susp", "susp", "ok"]]), S("B", ["A"])]}, 0),
+                "suspend2": ({"stages": [S("A"), S("B", ["A"], tasks=[["ok"], ["susp", "ok:k1=1"]]), S("C", ["B"])]}, 1)}
+        for n, (spec, stage) in sus2.items():
+            for k in range(0, 6):
+                for pers in (True, False):
+                    for nsig in (1, 2):
+                        for pol in ("fifo", "lifo"):
+                            add(kind="signal_crash", stage=stage, k=k, persistent=pers, signals=nsig, spec=spec, name=n, policy=pol)
         sus = {"suspend": fam["suspend"],
                "suspend2": {"stages": [S("A"), S("B", ["A"], tasks=[["ok"], ["susp", "ok:k1=1"]]), S("C", ["B"])]},
                "suspend_twice": {"stages": [S("A", tasks=[["susp", "susp", "ok"]]), S("B", ["A"])]}}
@@ -672,6 +690,8 @@ def monitor(pid: str, out: dict, base: dict | None) -> list[Violation]:
         vs += M.m_outcome(out, base, "recovery sweep in a healthy run", exec_slack={})
     if pid == "C17" and what == "cancel":
         vs += M.m_c17(out)
+    if pid == "C18":
+        vs += M.m_c18(out)
     return vs
 
 
